@@ -170,8 +170,21 @@ func (i *interpreter) boxMarshal(kind string, o value) value {
 	if it.t == nil {
 		unsup("amino marshal of nil interface")
 	}
-	cp := aminoNormalize(it.t, deepCopy(it.v))
-	return []value{boxCell{kind: kind, t: it.t, v: cp}}
+	// amino encodes a non-nil pointer exactly like the value it points to
+	t, v := it.t, it.v
+	for {
+		pt, ok := t.Underlying().(*types.Pointer)
+		if !ok {
+			break
+		}
+		p, ok := v.(*value)
+		if !ok || p == nil {
+			break
+		}
+		t, v = pt.Elem(), *p
+	}
+	cp := aminoNormalize(t, deepCopy(v))
+	return []value{boxCell{kind: kind, t: t, v: cp}}
 }
 
 // boxUnmarshal stores the content of token bz into the pointer held by ptr; returns an error message or "".
@@ -200,11 +213,17 @@ func (i *interpreter) boxUnmarshal(kind string, bz value, ptr value) string {
 	src := deepCopy(box.v)
 	// destination is an interface variable: store the dynamic value
 	if _, isIface := elem.Underlying().(*types.Interface); isIface {
-		if !types.AssignableTo(box.t, elem) {
-			unsup("amino: token of type %s decoded into interface %s", box.t, elem)
+		if types.AssignableTo(box.t, elem) {
+			*dst = iface{t: box.t, v: src}
+			return ""
 		}
-		*dst = iface{t: box.t, v: src}
-		return ""
+		// registered concrete type is the pointer type (methods with pointer receivers)
+		if pt := types.NewPointer(box.t); types.AssignableTo(pt, elem) {
+			cell := src
+			*dst = iface{t: pt, v: &cell}
+			return ""
+		}
+		return fmt.Sprintf("amino: cannot decode a %s into interface %s", box.t, elem)
 	}
 	switch {
 	case types.Identical(box.t, elem):
@@ -220,7 +239,10 @@ func (i *interpreter) boxUnmarshal(kind string, bz value, ptr value) string {
 		cell := src
 		*dst = &cell
 	default:
-		unsup("amino: token of type %s decoded into %s", box.t, elem)
+		// decoding into a different type: treated as a decode error (amino would fail or, for some
+		// representation-compatible types, succeed: that case is outside the model and listed as an assumption)
+		i.m.Stubs["amino: type mismatch treated as decode error"]++
+		return fmt.Sprintf("amino: cannot decode a %s into %s", box.t, elem)
 	}
 	return ""
 }
